@@ -669,9 +669,6 @@ func (e *Enc) loopPos(c *Ctx, li *loopInfo) {
 
 func (e *Enc) ctx(st *State, where string) *Ctx {
 	c := &Ctx{E: e, Vars: map[string]Val{}, St: st, where: e.key + " " + where}
-	for k, v := range e.paramVals {
-		c.Vars[k] = v
-	}
 	if e.entryCtx != nil {
 		c.Old = e.entryCtx
 	}
